@@ -2,19 +2,20 @@ import Cx.Proofs.OnePassSem
 /-
   Cx.Proofs.OnePass — the one-pass DFA (`dfa/onepass`, model `Cx.Model.OnePass`): the theorems in one place.
 
-    `search_eq_arun`      (Cx.Proofs.OnePassBuild) `build N = some T → search T h n = arunSearch N h n`:
-                          the memoised builder with its state numbering and flat table computes the run over NFA roots
-                          (closure of the root, one transition per byte class, the anchored start as the dead state).
-    `onepass_eq_btCaps`   (Cx.Proofs.OnePassSem) (d): when the anchored reference matches the WHOLE input, the one-pass
-                          DFA returns exactly the reference's slots (hypotheses: `strictRows`, `noBackToStart`,
-                          `noCap0`, `noRuneB`, `2 ≤ nslots ≤ 32`).
-  The equality with the reference does NOT hold in general — the model follows the code:
-    `ex_lazy_*`      the match-wins flag is never set, so the DFA only answers at the end of the input and ignores
-                     leftmost-first priorities: `(a+?)` on "aa" gives [0 2 0 2], regexp gives [0 1 0 1];
-    `ex_wordb_*`     look-around states are followed unconditionally: `(\b)` on "" gives [0 0 0 0], regexp: no match;
-                     `(a)\b(b)` on "ab" gives [0 2 0 1 1 2], regexp: no match;
-    `ex_startloop_*` DFA state 0 is both the start state and `DeadState`: `a*(b)` on "ab" gives no match
-                     (regexp: [0 2 1 2]).
+    `search_eq_orun`, `searchLongest_eq_orun`  (Cx.Proofs.OnePassBuild) `build N = some T → search T h n = orunSearch N h n false`:
+                          the memoised builder with its state numbering (state 0 = dead state), flat table and 64-bit
+                          transition word computes the run over NFA roots (closure of the root, one transition per
+                          byte class).
+    `guard_spec`          (Cx.Proofs.OnePassLook) what `hasUnsupportedLook` guarantees.
+    `epsClosure_spec`     (Cx.Proofs.OnePassClosure) what a finished `epsilonClosureOnePass` guarantees.
+    `refFind_unfold`      (Cx.Proofs.OnePassRef) the reference DFS without its visited set.
+    `onepass_eq_btCaps`   (Cx.Proofs.OnePassSem) `buildFor N n = some T → 2 ≤ n → (∀ i, h.at i < 256) →
+                          search T h n = btCapsAnchored N h 0 n`: soundness and completeness at once, no condition on
+                          where the match ends, end looks (`\z`, `$`) and start looks at offset 0 included.
+  The deviations of the code before 4f5a457 / 2d44821 are gone; the same automata now give (`*_fixed`):
+    `ex_lazy_*`      `(a+?)` on "aa": [0 1 0 1] (was [0 2 0 2]: the match-wins flag was never set);
+    `ex_wordb_*`, `ex_midb_*`   `(\b)`, `(a)\b(b)`: the build is rejected (look-around was followed unconditionally);
+    `ex_startloop_*` `a*(b)` on "ab": [0 2 1 2] (was nil: DFA state 0 was both the start state and `DeadState`).
 -/
 namespace Cx.Caps.OnePass
 open Cx Cx.Nfa
@@ -45,27 +46,46 @@ def exAB : NFA :=
       .mtch],
     startAnchored := 2, startUnanchored := 2 }
 
+/-- anchored compile of `(a)$` (an end look: `atEnd` / `endMatches`) -/
+def exEndLook : NFA :=
+  { states := #[.byteRange 97 97 1, .cap 1 false 3, .cap 1 true 0, .look .endText 4, .mtch],
+    startAnchored := 2, startUnanchored := 2 }
+
 def runOnePass (N : NFA) (h : Bytes) (n : Nat) : Option (Option Slots) := (buildFor N n).map fun T => search T h n
 
-theorem ex_lazy_onepass : runOnePass exLazy #[97, 97] 4 = some (some [0, 2, 0, 2]) := by decide +kernel
+theorem ex_lazy_onepass_fixed : runOnePass exLazy #[97, 97] 4 = some (some [0, 1, 0, 1]) := by decide +kernel
 theorem ex_lazy_ref : btCapsAnchored exLazy #[97, 97] 0 4 = some [0, 1, 0, 1] := by decide
 
-theorem ex_wordb_onepass : runOnePass exWordB #[] 4 = some (some [0, 0, 0, 0]) := by decide +kernel
+theorem ex_wordb_onepass_fixed : buildFor exWordB 4 = none := by decide +kernel
 theorem ex_wordb_ref : btCapsAnchored exWordB #[] 0 4 = none := by decide
 
-theorem ex_midb_onepass : runOnePass exMidB #[97, 98] 6 = some (some [0, 2, 0, 1, 1, 2]) := by decide +kernel
+theorem ex_midb_onepass_fixed : buildFor exMidB 6 = none := by decide +kernel
 theorem ex_midb_ref : btCapsAnchored exMidB #[97, 98] 0 6 = none := by decide
 
-theorem ex_startloop_onepass : runOnePass exStartLoop #[97, 98] 4 = some none := by decide +kernel
+theorem ex_startloop_onepass_fixed : runOnePass exStartLoop #[97, 98] 4 = some (some [0, 2, 1, 2]) := by decide +kernel
 theorem ex_startloop_ref : btCapsAnchored exStartLoop #[97, 98] 0 4 = some [0, 2, 1, 2] := by decide
-theorem ex_startloop_hyp : noBackToStart exStartLoop = false := by decide
 
-/-! ### non-vacuity of (d) -/
+/-- `(a)$`: a match only at the end of the input -/
+theorem ex_endlook_onepass : runOnePass exEndLook #[97] 4 = some (some [0, 1, 0, 1]) ∧
+    runOnePass exEndLook #[97, 97] 4 = some none := by decide +kernel
+theorem ex_endlook_ref : btCapsAnchored exEndLook #[97] 0 4 = some [0, 1, 0, 1] ∧
+    btCapsAnchored exEndLook #[97, 97] 0 4 = none := by decide
 
-theorem exAB_builds : (build exAB).isSome = true := by decide +kernel
+/-! ### non-vacuity of `onepass_eq_btCaps` -/
 
-example (T : Table) (hb : build exAB = some T) : search T #[97, 98] 6 = some [0, 2, 0, 1, 1, 2] :=
-  onepass_eq_btCaps hb (by decide +kernel) (by decide) (by decide) (by decide) (by decide) (by decide)
-    (by decide : btCapsAnchored exAB #[97, 98] 0 6 = some [0, 2, 0, 1, 1, 2]) (by decide)
+theorem exAB_builds : (buildFor exAB 6).isSome = true := by decide +kernel
+theorem exLazy_builds : (buildFor exLazy 4).isSome = true := by decide +kernel
+theorem exEndLook_builds : (buildFor exEndLook 4).isSome = true := by decide +kernel
+
+theorem bytes_ab : ∀ i, Bytes.at #[97, 98] i < 256 := by
+  intro i
+  match i with
+  | 0 => decide
+  | 1 => decide
+  | i+2 => simp [Bytes.at]
+
+example (T : Table) (hb : buildFor exAB 6 = some T) : search T #[97, 98] 6 = some [0, 2, 0, 1, 1, 2] := by
+  rw [onepass_eq_btCaps hb (by decide) bytes_ab]
+  decide
 
 end Cx.Caps.OnePass
